@@ -7,25 +7,23 @@
           sp_pattern <-> Pattern (FragGrammar.v, soundness by induction on the fuel, completeness by induction on the
           derivation with follow-set conditions).
    NOT covered: everything outside the fragment (see Grammar.v header): decimal/hex/unicode/property/control-letter
-   escapes and legacy octal, classes, braced quantifiers, named groups, back-references, and their early errors. *)
+   escapes and legacy octal, classes, named groups, back-references, and their early errors; braced quantifiers whose
+   bounds are 2^63 or more (the implementation saturates there, the grammar's early error compares the exact values). *)
 From Coq Require Import List NArith Bool.
 From V Require Import Common.Str Regex.Reader Regex.Validator Regex.ValidatorReset Regex.ValidatorTotal
   Regex.Grammar Regex.FragParser Regex.FragGrammar Regex.FragSim.
 Import ListNotations.
 Open Scope N_scope.
 
-Lemma in_fragment_parts u l : in_fragment u l = true -> scan false l = true /\ chars_ok u l = true.
-Proof. unfold in_fragment. intros H. apply andb_true_iff in H. exact H. Qed.
-
 Theorem fragment_equiv : forall st s u, in_fragment u (visible_units s u) = true ->
   (verdict_of (validate_pattern st s u) = VOk <-> Pattern u (visible_units s u)).
 Proof.
-  intros st s u Hf. destruct (in_fragment_parts _ _ Hf) as [Hs Hc].
+  intros st s u Hs. unfold in_fragment in Hs.
   pose proof (validate_pattern_sim st s u Hs) as Hsim. split.
   - intros Hok. destruct (validate_pattern st s u) as [a t|m t|p|]; try discriminate.
     destruct (sp_pattern u (visible_units s u)) as [a' l'| |] eqn:E; try contradiction.
     exact (sp_pattern_sound u _ a' l' E).
-  - intros Hp. rewrite (sp_pattern_complete u _ Hp Hc) in Hsim.
+  - intros Hp. rewrite (sp_pattern_complete u _ Hp) in Hsim.
     destruct (validate_pattern st s u) as [a t|m t|p|]; try contradiction. reflexivity.
 Qed.
 
@@ -46,10 +44,10 @@ Corollary fragment_equiv_u : forall st s, in_fragment true s = true ->
 Proof. intros st s Hf. exact (fragment_equiv st s true Hf). Qed.
 
 (* ---- non-vacuity ---- *)
-Lemma decide_pattern u l : chars_ok u l = true -> recognises u l = true -> Pattern u l.
-Proof. intros Hc Hr. apply (recognises_iff_Pattern u l Hc). exact Hr. Qed.
-Lemma decide_not_pattern u l : chars_ok u l = true -> recognises u l = false -> ~ Pattern u l.
-Proof. intros Hc Hr Hp. apply (recognises_iff_Pattern u l Hc) in Hp. congruence. Qed.
+Lemma decide_pattern u l : recognises u l = true -> Pattern u l.
+Proof. intros Hr. apply (recognises_iff_Pattern u l). exact Hr. Qed.
+Lemma decide_not_pattern u l : recognises u l = false -> ~ Pattern u l.
+Proof. intros Hr Hp. apply (recognises_iff_Pattern u l) in Hp. congruence. Qed.
 
 (* the units of   ^ \b ( a | \d STAR ) PLUS ? ( ? < = \. ) ( ? ! \w ) ( ? : e | ) ? \B $
    -- anchors, word boundaries, nested alternation, class escape, lazy quantifier, look-behind with an identity
@@ -62,32 +60,75 @@ Proof. intros u. apply decide_pattern; destruct u; reflexivity. Qed.
 Example ex_valid_accepted : forall st u, verdict_of (validate_pattern st ex_valid u) = VOk.
 Proof. intros st u. apply fragment_equiv; [destruct u; reflexivity|]. destruct u; apply ex_valid_pattern. Qed.
 
-(* Annex B: a quantified look-ahead  ( ? = a ) STAR b  and the identity escape  \a  are Patterns without u only *)
-Definition ex_annexb : list N := [40;63;61;97;41;42;98].
-Definition ex_annexb_escape : list N := [92;97].
-Example ex_annexb_modes : (Pattern false ex_annexb /\ ~ Pattern true ex_annexb) /\
-                          (Pattern false ex_annexb_escape /\ ~ Pattern true ex_annexb_escape).
-Proof. repeat split; first [apply decide_pattern | apply decide_not_pattern]; reflexivity. Qed.
-Example ex_annexb_validator : forall st l, In l [ex_annexb; ex_annexb_escape] ->
-  verdict_of (validate_pattern st l false) = VOk /\ verdict_of (validate_pattern st l true) <> VOk.
+(* braced quantifiers:  a{2}b{3,}?c{4,15}(?:d|e){0}  is a Pattern in both modes *)
+Definition ex_braced : list N :=
+  [97;123;50;125; 98;123;51;44;125;63; 99;123;52;44;49;53;125; 40;63;58;100;124;101;41;123;48;125].
+Example ex_braced_valid : forall st u,
+  in_fragment u ex_braced = true /\ Pattern u ex_braced /\ verdict_of (validate_pattern st ex_braced u) = VOk.
 Proof.
-  intros st l Hin. cbn [In] in Hin. destruct Hin as [<-|[<-|[]]]; split.
-  - apply (fragment_equiv st ex_annexb false eq_refl). apply ex_annexb_modes.
-  - intros H. apply (fragment_equiv st ex_annexb true eq_refl) in H. exact (proj2 (proj1 ex_annexb_modes) H).
-  - apply (fragment_equiv st ex_annexb_escape false eq_refl). apply ex_annexb_modes.
-  - intros H. apply (fragment_equiv st ex_annexb_escape true eq_refl) in H. exact (proj2 (proj2 ex_annexb_modes) H).
+  intros st u. assert (Hp : Pattern u ex_braced) by (apply decide_pattern; destruct u; reflexivity).
+  split; [destruct u; reflexivity|split; [exact Hp|]]. apply fragment_equiv; [destruct u; reflexivity|]. destruct u; exact Hp.
 Qed.
 
-(* `a` STAR STAR, a lone `(`, a quantified anchor, a quantified look-behind, a quantified word boundary and
-   a doubly quantified class escape are not Patterns (either mode) *)
-Example ex_invalid : forall st u l,
-  In l [[97;42;42]; [40]; [94;42]; [40;63;60;61;97;41;42]; [92;98;42]; [92;100;42;42]] ->
+(* a pattern is decided the same way by the grammar and by the validator, given that it is in the fragment *)
+Lemma agree st l u : in_fragment u (visible_units l u) = true ->
+  (Pattern u (visible_units l u) /\ verdict_of (validate_pattern st l u) = VOk) \/
+  (~ Pattern u (visible_units l u) /\ verdict_of (validate_pattern st l u) <> VOk).
+Proof.
+  intros Hf. destruct (recognises u (visible_units l u)) eqn:Er.
+  - left. pose proof (decide_pattern _ _ Er) as Hp. split; [exact Hp|]. apply (fragment_equiv st l u Hf). exact Hp.
+  - right. pose proof (decide_not_pattern _ _ Er) as Hn. split; [exact Hn|]. intros Hok. apply Hn. apply (fragment_equiv st l u Hf). exact Hok.
+Qed.
+Ltac decide_both :=
+  match goal with
+  | |- Pattern ?u ?l /\ verdict_of (validate_pattern ?st ?l0 ?u) = VOk =>
+      destruct (agree st l0 u eq_refl) as [H|[H _]]; [exact H|exfalso; apply H; apply decide_pattern; reflexivity]
+  | |- ~ Pattern ?u ?l /\ verdict_of (validate_pattern ?st ?l0 ?u) <> VOk =>
+      destruct (agree st l0 u eq_refl) as [[H _]|H]; [exfalso; revert H; apply decide_not_pattern; reflexivity|exact H]
+  end.
+
+(* Annex B: a quantified look-ahead  ( ? = a ) STAR b ,  the identity escape  \a , and the units { } ] where they do not
+   form a quantifier ( a{ ,  a{1 ,  a{,5} ,  x}y]z ,  { ) are Patterns without u only; (?=a){2} likewise *)
+Definition ex_annexb : list N := [40;63;61;97;41;42;98].
+Definition ex_annexb_escape : list N := [92;97].
+Definition ex_annexb_all : list (list N) :=
+  [ex_annexb; ex_annexb_escape; [97;123]; [97;123;49]; [97;123;44;53;125]; [120;125;121;93;122]; [123];
+   [40;63;61;97;41;123;50;125]].
+Example ex_annexb_modes : forall st l, In l ex_annexb_all ->
+  (Pattern false l /\ verdict_of (validate_pattern st l false) = VOk) /\
+  (~ Pattern true l /\ verdict_of (validate_pattern st l true) <> VOk).
+Proof.
+  intros st l Hin. unfold ex_annexb_all in Hin. cbn [In] in Hin.
+  repeat (destruct Hin as [<-|Hin]; [split; decide_both|]). contradiction.
+Qed.
+
+(* `a` STAR STAR, a lone `(`, a quantified anchor, a quantified look-behind, a quantified word boundary, a doubly
+   quantified class escape; bounds out of order  a{2,1} ; a braced quantifier with nothing to repeat  {1} ,  a|{1,2} ,
+   ^{3} ,  a{1}{2} ,  (?<=a){1} : not Patterns (either mode) *)
+Definition ex_invalid_all : list (list N) :=
+  [[97;42;42]; [40]; [94;42]; [40;63;60;61;97;41;42]; [92;98;42]; [92;100;42;42];
+   [97;123;50;44;49;125]; [123;49;125]; [97;124;123;49;44;50;125]; [94;123;51;125]; [97;123;49;125;123;50;125];
+   [40;63;60;61;97;41;123;49;125]].
+Example ex_invalid : forall st u l, In l ex_invalid_all ->
   ~ Pattern u (visible_units l u) /\ verdict_of (validate_pattern st l u) <> VOk.
 Proof.
-  intros st u l Hin.
-  assert (Hn : ~ Pattern u (visible_units l u) /\ in_fragment u (visible_units l u) = true).
-  { cbn [In] in Hin. repeat (destruct Hin as [<-|Hin]; [split; [apply decide_not_pattern|]; destruct u; reflexivity|]). contradiction. }
-  destruct Hn as [Hn Hf]. split; [exact Hn|]. intros Hok. apply Hn. apply (fragment_equiv st l u Hf). exact Hok.
+  intros st u l Hin. unfold ex_invalid_all in Hin. cbn [In] in Hin.
+  repeat (destruct Hin as [<-|Hin]; [destruct u; decide_both|]). contradiction.
+Qed.
+
+(* the early error compares the unbounded values:  a{9223372036854775807,9223372036854775806}  is in the fragment and is
+   rejected;  a{9223372036854775808,9223372036854775807}  is outside the fragment (bounds >= 2^63): there the grammar
+   rejects and the validator model accepts, see FragParser.braces_small *)
+Definition ex_big_in : list N :=
+  [97;123;57;50;50;51;51;55;50;48;51;54;56;53;52;55;55;53;56;48;55;44;57;50;50;51;51;55;50;48;51;54;56;53;52;55;55;53;56;48;54;125].
+Definition ex_big_out : list N :=
+  [97;123;57;50;50;51;51;55;50;48;51;54;56;53;52;55;55;53;56;48;56;44;57;50;50;51;51;55;50;48;51;54;56;53;52;55;55;53;56;48;55;125].
+Example ex_big_bounds : forall st u,
+  (in_fragment u ex_big_in = true /\ ~ Pattern u ex_big_in /\ verdict_of (validate_pattern st ex_big_in u) <> VOk) /\
+  (in_fragment u ex_big_out = false /\ ~ Pattern u ex_big_out).
+Proof.
+  intros st u. split; [split; [destruct u; reflexivity|destruct u; decide_both]|].
+  split; [destruct u; reflexivity|apply decide_not_pattern; destruct u; reflexivity].
 Qed.
 
 Print Assumptions fragment_equiv.
